@@ -15,7 +15,9 @@ LEVEL_TEXT = ("c24_dow_exact: decode_dow = spec_dow for every byte string.  c24_
               "start_day < end_day, start+1min <= end, end+1min < 24h, gaps in [0,1min] and an initial flag that is right at "
               "the first instant, the flag at every polled instant equals window membership.  c24_weekly_refuted_*: same day, "
               "wrapping week, start inside the window, initial flag on, short [start,end], late end each violate the property; "
-              "c24_open_end_overflow: no end configured is signed overflow.  c24_config: create_schedule's defaulting.")
+              "c24_open_end_overflow: no end configured is signed overflow.  c24_config_denotes: for well-formed attributes "
+              "create_schedule builds exactly the schedule the element denotes (midnight start included: "
+              "c24_config_midnight_nonvacuous); c24_configured_daily: element -> create_schedule -> polling is exact for daily schedules.")
 LEVEL_NOTE = ("Trusted: Coq kernel, extraction, the hand transcription (checked by the correspondence run), the OCaml glue that "
               "expands poll sequences and run-length encodes flags, the harness' clock_gettime interposition (self-tested by the "
               "C cases), UBSan trapping signed overflow.  std::stoi on utc_offset_mins/duration and the XML parser are not modelled.")
@@ -41,7 +43,10 @@ RULE = ("S: Schedule::test polled under the virtual clock with the flag fed back
         "initial flag right or wrong; daily schedules with both initial flags; 1 s / 1 ns steps across every window boundary; "
         "irregular gap patterns <= 60 s; malformed: gaps over a minute, days out of range, no end.  D: decode_dow on ALL strings of "
         "length <= 3 over [A-Za-z0-9], long names, random bytes incl. NUL and >= 0x80.  X: create_schedule on generated <schedule> "
-        "elements (attributes present/absent/empty, names from a pool, end before/at/after start, duration).  C: clock self test. "
+        "elements (attributes present/absent/empty, times half from a boundary pool 00:00:00 00:00:01 23:59:59 12:00:00 .., names from a "
+        "pool, end before/at/after start, duration).  W: the configured path (XML -> Configuration::process -> create_session_schedule "
+        "and create_login_schedule -> polling) on midnight starts, pool times in every order, weekday names, absent/garbled "
+        "attributes.  C: clock self test. "
         "non-trivial = S case whose flags contain both values, X case yielding a schedule, every D batch; distinct = distinct lines")
 
 DAY = 86400 * 10**9
@@ -73,8 +78,42 @@ def active(sd, ed, st, en, x):
     return (o <= w <= c) or (o <= w + WEEK <= c)
 
 
+DOWMAP = {"su": 0, "sunday": 0, "Sun": 0, "0": 0, "m": 1, "mo": 1, "Monday": 1, "MON": 1, "1": 1, "tu": 2, "Tuesday": 2, "2": 2,
+          "w": 3, "we": 3, "Wed": 3, "3": 3, "th": 4, "Thursday": 4, "THU": 4, "4": 4, "f": 5, "fr": 5, "Friday": 5, "5": 5,
+          "sa": 6, "Saturday": 6, "SAT": 6, "6": 6}
+
+
+def unhx(h):
+    return None if h == "~" else ("" if h == "-" else bytes.fromhex(h).decode("latin-1"))
+
+
+def hms_text(t):
+    if t is None or len(t) != 8 or t[2] != ":" or t[5] != ":" or not (t[0:2] + t[3:5] + t[6:8]).isdigit():
+        return None
+    return hms(int(t[0:2]), int(t[3:5]), int(t[6:8]))
+
+
+def parse_w(f):
+    """the schedule a W line denotes, in the shape parse_s gives (None if it denotes none)"""
+    st, en, utc, dur, sd, ed = [unhx(x) for x in f[1:7]]
+    stv, env = hms_text(st), hms_text(en)
+    if stv is None or (en is not None and env is None):
+        return None
+    d = int(dur) if dur else 0
+    if en is None:
+        env = stv + d * MIN if d else None
+    elif env <= stv:
+        return None
+    sdv = DOWMAP.get(sd, -1) if sd is not None else -1
+    edv = DOWMAP.get(ed, -1) if ed is not None else sdv
+    return {"st": stv, "en": env, "utc": int(utc) if utc else 0, "sd": sdv, "ed": edv, "prev0": f[7] != "0",
+            "t0": int(f[8]), "n": int(f[9]), "gaps": [int(g) for g in f[10].split(",")]}
+
+
 def parse_s(line):
     f = line.split()
+    if f[0] == "W":
+        return parse_w(f)
     if f[0] != "S":
         return None
     return {"st": int(f[1]), "en": None if f[2] == "E" else int(f[2]), "utc": int(f[3]), "sd": int(f[4]),
@@ -143,7 +182,7 @@ def postprocess(case, r):
 
 def nontrivial(case, r):
     k = case.line[0]
-    if k == "S":
+    if k in "SW":
         return "0*" in r and "1*" in r
     if k == "X":
         return len(r.split()) == 7
@@ -322,6 +361,8 @@ def gen_xml(rng, tier):
     names = [n for n in NAMES if all(c not in n for c in "<>&\"'")]
     for _ in range(1500 if tier == "thorough" else 350):
         h, m, s = rng.randrange(24), rng.randrange(60), rng.randrange(60)
+        if rng.random() < 0.5:
+            h, m, s = rng.choice(TIME_POOL)
         st = tm(h, m, s)
         r = rng.random()
         if r < 0.04:
@@ -329,7 +370,7 @@ def gen_xml(rng, tier):
         elif r < 0.08:
             st = rng.choice(["9:00:00", "09:00", "09:00:00.000", "", "0900000", "09:00:000"])
         elif r < 0.12:
-            st = rng.choice(["09x00y00", "1::00:00", "ab:cd:ef", "99:99:99", "24:00:00", "0Z:00:00"])
+            st = rng.choice(["09x00y00", "1::00:00", "ab:cd:ef", "99:99:99", "24:00:00", "0Z:00:00", " 9:00:00", "/9:00:00", "0/:00:00", "00:00:0 "])
         r = rng.random()
         if r < 0.3:
             en = None
@@ -339,6 +380,8 @@ def gen_xml(rng, tier):
             en = tm(rng.randrange(h + 1), rng.randrange(60), rng.randrange(60))
         elif r < 0.55:
             en = rng.choice(["17:00", "", "17:00:00.5", "1700:00:0"])
+        elif r < 0.75:
+            en = tm(*rng.choice(TIME_POOL))
         else:
             en = tm(rng.randrange(h, 24), rng.randrange(60), rng.randrange(60))
         utc = None if rng.random() < 0.4 else str(rng.choice([0, 60, -60, 330, -300, 765, -720, 1, -1, 100000]))
@@ -350,6 +393,72 @@ def gen_xml(rng, tier):
     return cs
 
 
+TIME_POOL = [(0, 0, 0), (0, 0, 1), (23, 59, 59), (12, 0, 0), (9, 0, 0), (17, 0, 0), (6, 30, 0), (18, 0, 0), (23, 58, 59),
+             (0, 1, 0), (0, 0, 59), (23, 59, 0)]
+
+
+def gen_configured(rng, tier):
+    """W: element -> Configuration::process -> create_session_schedule/create_login_schedule -> polling"""
+    cs = []
+    thorough = tier == "thorough"
+    f = lambda v: "~" if v is None else hx(v)
+    tm = lambda t: "%02d:%02d:%02d" % t
+    names = sorted(DOWMAP)
+
+    def line(st, en, utc, dur, sd, ed, prev0, t0, n, gaps):
+        return "W %s %s %s %s %s %s %d %d %d %s" % (f(st), f(en), f(utc), f(dur), f(sd), f(ed), 1 if prev0 else 0, t0, n,
+                                                   ",".join(str(g) for g in gaps))
+    # the corner the pool is about, always present: midnight starts, daily and weekly
+    for (st, en, sd, ed) in [("00:00:00", "23:59:59", None, None), ("00:00:00", "06:30:00", None, None),
+                             ("00:00:00", "18:00:00", "mo", "fr"), ("00:00:00", "00:00:01", None, None),
+                             ("00:00:01", "23:59:59", None, None), ("00:00:00", None, None, None)]:
+        for utc in (None, "60", "-300"):
+            dur = "90" if en is None else None
+            t0 = SUNDAY + rng.randrange(0, 7) * DAY - (int(utc) if utc else 0) * MIN - 30 * MIN
+            p = parse_w(line(st, en, utc, dur, sd, ed, 0, t0, 1, [MIN]).split())
+            flag = right_flag(p["sd"], p["ed"], p["st"], p["en"], p["utc"], t0)
+            cs.append(Case(line(st, en, utc, dur, sd, ed, flag, t0, 24 * 60 + 90, [MIN]), "configured-midnight-start"))
+    # daily from the pool: every ordered/equal/reversed combination, run across a boundary
+    for _ in range(400 if thorough else 110):
+        a, b = rng.choice(TIME_POOL), rng.choice(TIME_POOL)
+        st, en, dur = tm(a), tm(b), None
+        r = rng.random()
+        if r < 0.2:
+            en, dur = None, str(rng.choice([1, 30, 90, 1440, 0]))
+        elif r < 0.25:
+            dur = "45"                                   # end_time wins over duration
+        utc = rng.choice([None, "0", "60", "-300", "330", "765", "-720"])
+        u = int(utc) if utc else 0
+        edge = SUNDAY + rng.randrange(0, 7) * DAY + rng.choice([hms(*a), hms(*b)]) - u * MIN
+        t0 = edge - rng.randrange(1, 100) * MIN - rng.choice([0, 0, 30 * SEC, 59 * SEC + 999999999])
+        cs.append(Case(line(st, en, utc, dur, None, None, rng.randrange(2), t0, 200, [MIN]), "configured-daily"))
+    # weekly, start day < end day, from before the opening or across the closing with the right flag
+    for _ in range(200 if thorough else 60):
+        sdn, edn = rng.choice(names), rng.choice(names)
+        if DOWMAP[sdn] >= DOWMAP[edn]:
+            if rng.random() < 0.85:
+                continue
+        a, b = sorted([rng.choice(TIME_POOL), rng.choice(TIME_POOL)])
+        if a == b:
+            continue
+        utc = rng.choice([None, "60", "-300", "330"])
+        u = int(utc) if utc else 0
+        edn_attr = edn if rng.random() < 0.9 else None       # absent end_day: defaults to the start day
+        p = parse_w(line(tm(a), tm(b), utc, None, sdn, edn_attr, 0, 0, 1, [MIN]).split())
+        edge = SUNDAY + rng.choice([p["sd"] * DAY + p["st"], p["ed"] * DAY + p["en"]]) - u * MIN
+        t0 = edge - rng.randrange(1, 100) * MIN
+        flag = right_flag(p["sd"], p["ed"], p["st"], p["en"], p["utc"], t0)
+        cs.append(Case(line(tm(a), tm(b), utc, None, sdn, edn_attr, flag, t0, 260, [MIN]), "configured-weekly"))
+    # absent / garbled attributes
+    for _ in range(60 if thorough else 25):
+        st = rng.choice([None, "", "9:00:00", "09:00", "09:00:00.000", "00:00:0", "000000:0", "0:00:000"])
+        en = rng.choice([None, "17:00:00", "00:00:00", "", "17:00"])
+        cs.append(Case(line(st, en, rng.choice([None, "60"]), rng.choice([None, "30"]), rng.choice([None, "mo", "xyz"]),
+                            rng.choice([None, "fr", ""]), rng.randrange(2), SUNDAY + rng.randrange(0, 7 * 1440) * MIN, 50, [MIN]),
+                       "configured-absent-or-garbled"))
+    return cs
+
+
 def gen_clock(rng, tier):
     ts = [0, 1, -1, 999999999, 10**9, -10**9, -10**9 - 1, DAY - 1, DAY, -DAY, -DAY - 1, SUNDAY, SUNDAY - 1,
           1600000000123456789, 2**62 - 1, 4102444800 * SEC]
@@ -358,7 +467,7 @@ def gen_clock(rng, tier):
 
 
 def gen_cases(rng, tier):
-    return gen_clock(rng, tier) + gen_decode(rng, tier) + gen_xml(rng, tier) + gen_sched(rng, tier)
+    return gen_clock(rng, tier) + gen_decode(rng, tier) + gen_xml(rng, tier) + gen_configured(rng, tier) + gen_sched(rng, tier)
 
 
 def EXHAUSTIVE(tier):
@@ -366,7 +475,7 @@ def EXHAUSTIVE(tier):
 
 
 def extra_search(rng, seeds, tier):
-    out = gen_sched(rng, "quick") + gen_xml(rng, "quick") + gen_decode(rng, "quick")[-6:]
+    out = gen_sched(rng, "quick") + gen_xml(rng, "quick") + gen_configured(rng, "quick") + gen_decode(rng, "quick")[-6:]
     for c in seeds[:20]:
         p = parse_s(c.line)
         if not p:
